@@ -187,10 +187,21 @@ func Main(t *testing.T, hs ...*Harness) {
 	}
 	debug.SetGCPercent(-1)
 	name := os.Getenv("HYSIM_HARNESS")
+	// "<harness>race" names the race-detector twin of <harness> (same generator and executor,
+	// another build): parts with "race": true in harness.json
 	var h *Harness
 	for _, c := range hs {
 		if c.Name == name || (name == "" && len(hs) == 1) {
 			h = c
+		}
+	}
+	if h == nil && strings.HasSuffix(name, "race") {
+		for _, c := range hs {
+			if c.Name == strings.TrimSuffix(name, "race") {
+				cp := *c
+				cp.Name = name
+				h = &cp
+			}
 		}
 	}
 	if h == nil {
